@@ -1730,7 +1730,8 @@ def r720(e: Engine, rep: Report):
         for x in walk_own(m.node):
             if isinstance(x, ast.Assign) and any(
                     self_attr(t) == 'envelope' for t in x.targets) and \
-                    isinstance(x.value, ast.Call):
+                    not (isinstance(x.value, ast.Constant) and
+                         x.value.value is None):
                 binders.append((m, x))
     if not binders:
         rep.error('anchor vanished: `self.envelope = Envelope(...)` in the '
